@@ -11,7 +11,7 @@ CHECKS = {
         level_text="Exploration by runtime monitoring: a section table (client boundary) and the raw owner table (lock boundary) are checked at every guard dereference / closure entry, every payload names its lock and carries a version that must equal a shadow copy (no lost, torn, stale or misrouted update), with a scheduling point inside every section and a conservation check (final version = completed exclusive sections) through into_inner at the end.",
         design_ref="DESIGN.md §3 C02",
         level_note="Trusted: audit locks, payload/shadow bookkeeping in world.rs/exec.rs. Holds for the programs/schedules/shapes produced.",
-        technique="runtime monitoring: section-overlap + payload continuity monitors under a seeded scheduler",
+        technique="runtime monitoring: section-overlap + payload continuity monitors under a seeded scheduler; Miri and ThreadSanitizer on free-running production locks",
     ),
     "C05": dict(
         level_text="Exploration by runtime monitoring: every raw release happylock issues is audited against the owner table (issuer must hold the lock, in that mode) and at the end of every episode every lock must be free.",
@@ -81,6 +81,12 @@ CHECKS.update({
         design_ref="DESIGN.md §3 C13",
         level_note="Holders are phantom owners placed directly in the audit lock table (observationally identical for try-operations, which consult only the raw lock).",
         technique="runtime monitoring: exhaustive enumeration against a reference oracle over audit raw locks",
+    ),
+    "C16": dict(
+        level_text="Exploration by runtime monitoring + sanitizers: drop-counting tokens (table id -> drops, no addresses remembered) through every construction/destruction path of every collection kind and container shape, values written under a lock and compared positionally after extraction; the same workload runs under Miri (leak check on, double free / use-after-free / uninit reads are UB reports) and, in the thorough tier, under valgrind memcheck. Each sanitizer lane first has to flag a canary.",
+        design_ref="DESIGN.md §3 C16",
+        level_note="Trusted: token table; Miri / memcheck as oracles for leaks and invalid frees. Guards that own heap memory are not forgotten under the leak detectors (that leak would be the test's own).",
+        technique="runtime monitoring: exactly-once drop accounting + Miri / valgrind memcheck on the same workload",
     ),
     "C17": dict(
         level_text="Exploration by runtime monitoring: every non-acquiring operation runs under a call context; the monitor rejects any blocking raw op inside it and any difference of the owner table before/after (transient try-acquire+release inside Debug is allowed). Locks are free, held by a phantom, held by the caller's own live guard, inside a running scoped closure, or held through a leaked guard.",
